@@ -11,6 +11,7 @@ from hypothesis import strategies as st
 
 from pbt.core import HarnessError, Outcome
 from pbt.props._exc import make as _exc
+from pbt.instruments.locks import SelfDeadlock as _SelfDeadlock
 
 TECHNIQUE = "exhaustive enumeration of 1-3 stage pipelines over all checkpoint/processor/handler behaviours + Hypothesis-generated 1-5 stage pipelines, judged by invariants over the invocation log"
 LEVEL_TEXT = ("Exploration: every pipeline is run on the real Cascade with logging callables; the log is checked for gate-before-processor with the same signal, "
@@ -224,7 +225,7 @@ def _build(case, log):
         if other[1] != "idle":
             try:
                 o.run("other input")
-            except Exception:  # noqa: BLE001 - the other pipeline is not under test
+            except (Exception, _SelfDeadlock):  # noqa: BLE001 - the other pipeline is not under test
                 pass
     return c
 
